@@ -105,6 +105,7 @@
 -/
 import JdProofs.PatchRender
 import JdProofs.PatchRenderClosed
+import JdProps.C09Text
 
 set_option autoImplicit false
 
